@@ -159,6 +159,13 @@ func genC16(t *rapid.T) C16Case {
 		}
 	case "json-roundtrip":
 		tree := genJObj(t, rapid.IntRange(0, 4).Draw(t, "depth"))
+		if rapid.IntRange(0, 999).Draw(t, "hugejson") == 417 {
+			// an object of several megabytes (a document store dump, a base64 file)
+			big := strings.Repeat("0123456789abcdef", rapid.SampledFrom([]int{262144, 262145, 400000}).Draw(t, "hugelen"))
+			tree = JNode{T: "obj", Keys: []string{"id", "blob"}, Kids: []JNode{{T: "str", S: "x"}, {T: "str", S: big}}}
+			c.Carrier = rapid.SampledFrom([]string{"bytes", "breader", "buffer"}).Draw(t, "hugecarrier")
+			c.Loop = false
+		}
 		c.Tree = &tree
 		c.OutKind = rapid.SampledFrom([]string{"map", "map", "raw", "struct"}).Draw(t, "outkind")
 		c.UseNum = rapid.Bool().Draw(t, "usenum")
@@ -528,6 +535,9 @@ func runC16(c C16Case) (out core.Outcome) {
 		if d := equalJSON(tree, got, c.UseNum, "$"); d != "" {
 			out.Violation = core.Viol("C16/json-roundtrip-differs", "%s (frame %.120q)", d, emitted)
 			return
+		}
+		if len(emitted) > 4<<20 {
+			cls.Add("json-frame-larger-than-4MiB")
 		}
 		if jsonDepth(tree) >= 2 {
 			cls.Add("json-nested")
